@@ -124,6 +124,13 @@ def class_state():
             objs += [v for v in vars(m).values() if isinstance(v, type) and v.__module__ == name]
     for c in objs:
         out[c.__module__ + "." + c.__name__] = sorted((k, id(v)) for k, v in vars(c).items())
+        # contents of class-level containers (dispatch tables, registries): they must not grow or change because of a text
+        for k, v in vars(c).items():
+            if isinstance(v, (dict, list, set, frozenset, tuple)):
+                try:
+                    out[c.__module__ + "." + c.__name__ + "." + k + "#content"] = repr(sorted(map(repr, v)))[:20000]
+                except Exception:   # noqa
+                    pass
     return out
 
 
